@@ -25,6 +25,7 @@ CheckRun(L, v, nn, vis, r) ==
   /\ Expect(vis \/ r.out \in {"panic", "loop"} \/ PristinePrefix(L, nn, r.out),
             IF nn < TrueLen(L) THEN "valid-prefix-not-need-more" ELSE "valid-frame-not-decoded")
   /\ Expect(AllocAfterArrival(L, v, nn, r.alloc), "alloc-before-arrival")
+  /\ Expect(r.dup = 0, "pooled-buffer-given-back-twice")
 
 CheckMatch(L, vis, m) ==
   /\ Expect(m.res \in {"again", "success", "failed"}, "matcher-" \o m.res)
@@ -62,6 +63,7 @@ TStr == /\ IsEvent("str")
               /\ Expect(r.consumed <= Ev.n, "consumed-more-than-received")
               /\ Expect(r.out = "more" => r.consumed = 0, "need-more-consumed-bytes")
               /\ Expect(StrOK_Alloc(r.out, r.alloc, Ev.n), "alloc-before-arrival")
+              /\ Expect(r.dup = 0, "pooled-buffer-given-back-twice")
         /\ Expect(Ev.tailsame, "reads-outside-received-bytes")
         /\ \A i \in DOMAIN Ev.ms : Expect(Ev.ms[i].res \in {"again", "success", "failed"}, "matcher-panics")
         /\ UNCHANGED vars
